@@ -554,7 +554,92 @@ func c17Check(c c17Case) []vlib.Violation {
 	if len(c.Rules) == 1 {
 		vs = append(vs, c17Contract(c, schemas, builders, out)...)
 	}
+	// Several multiplicity-changing rules stacked on the same option: the
+	// documented combination is array_to_append / map_to_index followed by
+	// disjunction_as_options; the others are tagged so that the known finding
+	// "option rules assume a freshly derived option" can name them.
+	if tag := c17Stacked(c); tag != "" {
+		for i := range vs {
+			if strings.Contains(vs[i].Sig, ":option:") {
+				vs[i].Sig += ":" + tag
+			}
+		}
+	}
 	return vs
+}
+
+var c17MultiplicityKinds = map[string]bool{"array_to_append": true, "map_to_index": true, "struct_fields_as_arguments": true, "struct_fields_as_options": true, "unfold_boolean": true, "disjunction_as_options": true}
+
+func c17Stacked(c c17Case) string {
+	// application order: common rules first, then the language's
+	var ordered []c17Rule
+	for _, r := range c.Rules {
+		if r.Scope == "all" {
+			ordered = append(ordered, r)
+		}
+	}
+	for _, r := range c.Rules {
+		if r.Scope != "all" {
+			ordered = append(ordered, r)
+		}
+	}
+	byOption := map[string][]string{}
+	var keys []string
+	// option names change along the way (rename, and the options created by
+	// disjunction_as_options / struct_fields_as_options / unfold_boolean get
+	// new names): once a builder has seen a name-producing rule, every later
+	// multiplicity-changing rule on that builder may hit a rewritten option.
+	renamed := map[string]string{}
+	producedNames := map[string]string{}
+	for _, r := range ordered {
+		if r.On != "option" {
+			continue
+		}
+		bkey := strings.ToLower(r.Pkg + "/" + r.SelA)
+		if r.Kind == "rename" || r.Kind == "duplicate" {
+			for _, o := range r.SelOpts {
+				renamed[bkey+"/"+strings.ToLower(r.As)] = bkey + "/" + strings.ToLower(o)
+			}
+			continue
+		}
+		if !c17MultiplicityKinds[r.Kind] {
+			continue
+		}
+		for _, o := range r.SelOpts {
+			k := bkey + "/" + strings.ToLower(o)
+			if orig, ok := renamed[k]; ok {
+				k = orig
+			}
+			if prev, ok := producedNames[bkey]; ok {
+				if _, direct := byOption[k]; !direct {
+					k = prev // possibly an option produced by the earlier rule
+				}
+			}
+			if _, ok := byOption[k]; !ok {
+				keys = append(keys, k)
+			}
+			byOption[k] = append(byOption[k], r.Kind)
+			switch r.Kind {
+			case "disjunction_as_options", "struct_fields_as_options", "unfold_boolean":
+				producedNames[bkey] = k
+			}
+		}
+	}
+	tag := ""
+	for _, k := range keys {
+		kinds := byOption[k]
+		if len(kinds) < 2 {
+			continue
+		}
+		if len(kinds) == 2 && (kinds[0] == "array_to_append" || kinds[0] == "map_to_index") && kinds[1] == "disjunction_as_options" {
+			if tag == "" {
+				tag = "stacked-documented"
+			}
+			continue
+		}
+		return "stacked-unsupported(" + strings.Join(kinds, ">") + ")"
+	}
+	return tag
 }
 
 func selectsBuilder(r c17Rule, schemas ast.Schemas, b ast.Builder) bool {
@@ -913,16 +998,39 @@ func c17DrawRule(rt *rapid.T, lang string, schemas ast.Schemas, builders ast.Bui
 			// destination b, source: the builder of an object one of b's options refers to
 			r.SelKind, r.SelA = "by_name", b.Name
 			r.Source, r.Under = "NoSuchBuilder", "nofield"
+			// candidate (source builder, path) pairs: field chains of the built
+			// object, up to depth 4, that end on an object with a builder
 			var cands [][2]string
-			for _, o := range b.Options {
-				if len(o.Args) == 1 && o.Args[0].Type.IsRef() {
-					ref := o.Args[0].Type.AsRef()
-					for _, sb := range builders {
-						if sb.For.SelfRef == ref && sb.Package == b.Package {
-							cands = append(cands, [2]string{sb.Name, o.Name})
+			var explore func(t ast.Type, prefix string, depth int)
+			explore = func(t ast.Type, prefix string, depth int) {
+				rt := resolveAll(schemas, t)
+				if rt.Kind != ast.KindStruct || depth > 4 {
+					return
+				}
+				for _, f := range rt.Struct.Fields {
+					p := f.Name
+					if prefix != "" {
+						p = prefix + "." + f.Name
+					}
+					if f.Type.IsRef() {
+						for _, sb := range builders {
+							if sb.For.SelfRef == f.Type.AsRef() && sb.For.SelfRef.ReferredPkg == b.For.SelfRef.ReferredPkg && builderKey(sb) != builderKey(b) {
+								cands = append(cands, [2]string{sb.Name, p})
+							}
 						}
 					}
+					if f.Type.IsRef() || f.Type.IsStruct() {
+						explore(f.Type, p, depth+1)
+					}
 				}
+			}
+			explore(b.For.Type, "", 1)
+			// prefer deep paths: they are the rare ones
+			sort.SliceStable(cands, func(i, j int) bool {
+				return strings.Count(cands[i][1], ".") > strings.Count(cands[j][1], ".")
+			})
+			if len(cands) > 6 {
+				cands = cands[:6]
 			}
 			if len(cands) > 0 {
 				pick := cands[rapid.IntRange(0, len(cands)-1).Draw(rt, "mergesrc")]
@@ -933,6 +1041,41 @@ func c17DrawRule(rt *rapid.T, lang string, schemas ast.Schemas, builders ast.Bui
 	}
 	r.On = "option"
 	r.Kind = rapid.SampledFrom([]string{"omit", "rename", "rename_arguments", "unfold_boolean", "struct_fields_as_arguments", "struct_fields_as_options", "array_to_append", "map_to_index", "disjunction_as_options", "duplicate", "add_comments"}).Draw(rt, "okind")
+	// follow-up: a second rule on the option the previous option rule (or a
+	// merge_into) targeted, whatever its kind
+	if len(prior) > 0 && rapid.IntRange(0, 9).Draw(rt, "followup") < 4 {
+		prev := prior[len(prior)-1]
+		if prev.On == "option" && len(prev.SelOpts) > 0 {
+			r.Pkg, r.SelKind, r.SelA, r.SelOpts, r.TargetClass = prev.Pkg, prev.SelKind, prev.SelA, []string{prev.SelOpts[0]}, prev.TargetClass
+			if prev.Kind == "rename" {
+				r.SelOpts = []string{prev.As}
+			}
+			r.Kind = rapid.SampledFrom([]string{"disjunction_as_options", "disjunction_as_options", "struct_fields_as_options", "struct_fields_as_arguments", "array_to_append", "map_to_index", "unfold_boolean", "rename_arguments", "duplicate"}).Draw(rt, "followkind")
+			switch r.Kind {
+			case "duplicate":
+				r.As = "dup" + r.SelOpts[0]
+			case "rename_arguments":
+				r.Names = []string{"renamedArg"}
+			case "unfold_boolean":
+				r.TrueAs, r.FalseAs = "enable"+r.SelOpts[0], "disable"+r.SelOpts[0]
+			}
+			return r
+		}
+		if prev.Kind == "merge_into" && prev.Source != "NoSuchBuilder" {
+			// an option the destination received from the source
+			for _, sb := range builders {
+				if sb.Name == prev.Source && sb.Package == prev.Pkg && len(sb.Options) > 0 {
+					o := sb.Options[rapid.IntRange(0, len(sb.Options)-1).Draw(rt, "mergedopt")]
+					r.Pkg, r.SelKind, r.SelA, r.SelOpts, r.TargetClass = prev.Pkg, "opt_by_builder", prev.SelA, []string{o.Name}, "exact"
+					r.Kind = rapid.SampledFrom([]string{"struct_fields_as_options", "struct_fields_as_arguments", "array_to_append", "map_to_index", "rename"}).Draw(rt, "mergefollowkind")
+					if r.Kind == "rename" {
+						r.As = "merged" + o.Name
+					}
+					return r
+				}
+			}
+		}
+	}
 	// pick an option the rule applies to when possible
 	applicable := func(o ast.Option) bool {
 		if len(o.Args) == 0 {
